@@ -34,6 +34,10 @@ ADMIN_OPS = ('admin_eio_connect', 'admin_connect', 'admin_event', 'admin_close',
 PATCHED = ('handle_post_request', '_websocket_handler', '_send_ping')
 
 
+class RunAway(RecursionError):
+    pass
+
+
 class OneShot:
     """stop event for exactly one iteration of `while not stop.is_set()`."""
 
@@ -100,6 +104,27 @@ class AdminServerDriver(srv.ServerDriver):
                 setattr(cls, k, v)
             for k in set(cls.__dict__) - before:
                 delattr(cls, k)
+
+    MAX_EFFECTS_PER_OP = 4000
+
+    def _socket(self, eio):
+        """as in drivers/srv.py, plus a bound on the effects of ONE operation: a run-away wrapper
+        (e.g. a report that re-enters the wrapped emit) is cut short instead of filling the memory."""
+        s = super()._socket(eio)
+        drv = self
+        inner = s.send
+        if self.mode == 'sync':
+            def send(pkt):
+                if len(drv.trace) > drv.MAX_EFFECTS_PER_OP:
+                    raise RunAway('more than %d effects in one operation' % drv.MAX_EFFECTS_PER_OP)
+                return inner(pkt)
+        else:
+            async def send(pkt):
+                if len(drv.trace) > drv.MAX_EFFECTS_PER_OP:
+                    raise RunAway('more than %d effects in one operation' % drv.MAX_EFFECTS_PER_OP)
+                return await inner(pkt)
+        s.send = send
+        return s
 
     async def _drain_bg(self):
         """run the scheduled `config` closures; keep the stats loop parked."""
